@@ -40,6 +40,16 @@ type PPtrNamed struct {
 
 func (*PPtrNamed) EventTypeName() string { return "ptr-named.event.v1" }
 
+// PEnv names itself after one of its fields: its persisted type name depends on the value.
+type PEnv struct {
+	ID   int    `json:"id"`
+	Kind string `json:"kind"`
+}
+
+func (e PEnv) EventTypeName() string { return "env." + e.Kind }
+
+func mkPEnv(id, variant int) PEnv { return PEnv{ID: id, Kind: []string{"created", "updated", "deleted"}[variant%3]} }
+
 // payload variants for PVal
 func mkPVal(id, variant int) PVal {
 	v := PVal{ID: id, L: []string{}}
@@ -78,6 +88,8 @@ func mkUnencodable(id, kind int) PVal {
 type shape struct {
 	Name     string
 	TypeName string // what EventType reports for events of this shape
+	// NameOf, when set, gives the type name of one particular event (for value-dependent names)
+	NameOf func(id, variant int) string
 	RT       reflect.Type
 	Sub      func(bus *eventbus.EventBus, h func(id int), opts ...eventbus.SubscribeOption) error
 	Pub      func(bus *eventbus.EventBus, ctx context.Context, id, variant int)
@@ -197,6 +209,36 @@ var shapes = []*shape{
 			return eventbus.SubscribeWithReplay(ctx, bus, subID, func(e *PPtrNamed) { h(e.ID) })
 		},
 	},
+}
+
+func (sh *shape) nameOf(id, variant int) string {
+	if sh.NameOf != nil {
+		return sh.NameOf(id, variant)
+	}
+	return sh.TypeName
+}
+
+// numStaticShapes: shapes[0:numStaticShapes] have a type name that does not depend on the value.
+const numStaticShapes = 4
+
+func init() {
+	shapes = append(shapes, &shape{
+		Name: "value-dependent-name", TypeName: "env.", RT: reflect.TypeOf(PEnv{}),
+		NameOf: func(id, v int) string { return eventbus.EventType(mkPEnv(id, v)) },
+		Sub: func(bus *eventbus.EventBus, h func(int), opts ...eventbus.SubscribeOption) error {
+			return eventbus.Subscribe(bus, func(e PEnv) { h(e.ID) }, opts...)
+		},
+		Pub:     func(bus *eventbus.EventBus, ctx context.Context, id, v int) { pubAny(bus, ctx, mkPEnv(id, v)) },
+		Marshal: func(id, v int) []byte { return mustJSON(mkPEnv(id, v)) },
+		RoundTrip: func(data []byte, id, v int) bool {
+			var got PEnv
+			return json.Unmarshal(data, &got) == nil && got == mkPEnv(id, v)
+		},
+		IDOf: func(ev any) (int, bool) { e, ok := ev.(PEnv); return e.ID, ok },
+		SubReplay: func(ctx context.Context, bus *eventbus.EventBus, subID string, h func(int)) error {
+			return eventbus.SubscribeWithReplay(ctx, bus, subID, func(e PEnv) { h(e.ID) })
+		},
+	})
 }
 
 // storedID extracts the "id" member of a stored JSON document.
